@@ -124,6 +124,9 @@ pub fn main(args: &[String]) {
                             // callers and table entries: count of references must carry over
                             if refs_to(&a, fidx as u32) != refs_to(&b, new_ix) { viol.push(v("edit-callers-not-rewired", "C18", format!("{}: references to imported function {}: {:?} before, {:?} to the new body after", name, fidx, refs_to(&a, fidx as u32), refs_to(&b, new_ix)), wasm)); }
                             if a.funcs.len() + ni != b.funcs.len() + nib { viol.push(v("edit-function-count", "C18", format!("{}: number of functions changed", name), wasm)); }
+                            // the function keeps its identity, so it keeps its debug name (the configuration writes the name section)
+                            { let (na, nb) = (crate::oracles::function_names(&a), crate::oracles::function_names(&b)); if let Some(n) = na.get(&(fidx as u32)) { if nb.get(&new_ix) != Some(n) {
+                                viol.push(v("edit-loses-name", "C18 C13", format!("{}: imported function {} is named {:?} in the input; after replace_imported_func the function carrying the new body is named {:?}", name, fidx, n, nb.get(&new_ix)), wasm)); } } }
                         } else {
                             // retargets only that export; the original stays for internal callers
                             let first = a.exports.iter().position(|e| e.1 == 0 && e.2 as usize == fidx).unwrap();
